@@ -12,8 +12,17 @@ func init() {
 	register(&propertyDef{ID: "C16", Level: "proof", Run: runC16})
 	for _, id := range []string{"C01", "C03", "C11", "C13"} {
 		id := id
-		register(&propertyDef{ID: id, Level: "translation_validation", Run: func(r *Run) error { return runClosureProperty(r, id, [][]string{{}}) }})
+		register(&propertyDef{ID: id, Level: "translation_validation", Run: func(r *Run) error { return runClosureProperty(r, id, [][]string{{}}, false) }})
 	}
+	register(&propertyDef{ID: "C02", Level: "translation_validation", Run: func(r *Run) error {
+		return runClosureProperty(r, "C02", [][]string{{"-inline"}, {"-switch"}, {"-inline", "-switch"}}, false)
+	}})
+	register(&propertyDef{ID: "C07", Level: "translation_validation", Run: func(r *Run) error {
+		return runClosureProperty(r, "C07", [][]string{{"-noast"}, {"-noast", "-inline"}, {"-noast", "-switch"}, {"-noast", "-inline", "-switch"}}, false)
+	}})
+	register(&propertyDef{ID: "C17", Level: "translation_validation", Run: func(r *Run) error {
+		return runClosureProperty(r, "C17", [][]string{{}, {"-inline"}, {"-switch"}, {"-inline", "-switch"}}, true)
+	}})
 }
 
 func runC16(r *Run) error {
@@ -33,11 +42,19 @@ func attributed(ob *Obligation, id string) bool {
 	}
 	if ob.Props != "" {
 		for _, p := range strings.Split(ob.Props, ",") {
-			if strings.TrimSpace(p) == id {
+			p = strings.TrimSpace(p)
+			if p == id {
+				return true
+			}
+			// C02 and C17 are about verdict, prefix and tokens under the option sets
+			if (id == "C02" || id == "C17") && (p == "C01" || p == "C03") {
 				return true
 			}
 		}
 		return false
+	}
+	if id == "C07" && (ob.Kind == "safety" || ob.Kind == "requires" || ob.Kind == "assigns") {
+		return true
 	}
 	switch ob.Kind {
 	case "safety", "overflow":
@@ -78,10 +95,19 @@ func closurePrograms(r *Run) ([]programSpec, error) {
 
 // runClosureProperty validates every closure of every program under each option set and keeps the
 // obligations attributed to the property.
-func runClosureProperty(r *Run, id string, optSets [][]string) error {
+func runClosureProperty(r *Run, id string, optSets [][]string, corpusOnly bool) error {
 	progs, err := closurePrograms(r)
 	if err != nil {
 		return err
+	}
+	if corpusOnly {
+		var keep []programSpec
+		for _, p := range progs {
+			if !strings.Contains(p.Name, "schema") && !strings.HasPrefix(p.Name, "hz-") {
+				keep = append(keep, p)
+			}
+		}
+		progs = keep
 	}
 	var samples []any
 	for _, p := range progs {
